@@ -626,6 +626,7 @@ def correspondence_path(ctx, dist, descs):
 def seq_case(desc, highs):
     """Run the real sequence heuristic; returns (Gallina case literal, outcome strings)."""
     rp = build("seq", desc)
+    hyp = seq_hyp(rp) and (0, 0) in rp.arcs
     obs, outs = [], []
     for high in highs:
         try:
@@ -641,7 +642,8 @@ def seq_case(desc, highs):
         obs.append(lit.ok(lit.tup(x, arcs, lit.nat(rp.max_vehicles), vc)))
         outs.append("ok")
     term = lit.tup(lit.boolean(desc["strict"]), gops_lit(desc), lit.nat(desc["V"]), lit.nat(desc["L"]),
-                   lit.lst([lit.z(h) for h in highs]), lit.lst(obs))
+                   lit.lst([lit.z(h) for h in highs]), lit.boolean(hyp), lit.lst(obs))
+    outs.append("inside the hypotheses" if hyp else "outside the hypotheses")
     return term, outs
 
 
@@ -653,8 +655,9 @@ def correspondence_seq(ctx, dist, descs):
         term, outs = seq_case(desc, highs)
         terms.append(term)
         meta.append((desc, highs, outs))
-        for k, o in enumerate(outs):
+        for k, o in enumerate(outs[:-1]):
             dist[f"corr/seq/call{k + 1}/{o}"] += 1
+        dist[f"corr/seq/{outs[-1]}"] += 1
     mism, err = ctx.coq_mismatches("seq", HEADER, "scase9", "check_scase9", terms, shard=40)
     ctx.count(evaluations=sum(len(m[2]) for m in meta), traces=len(terms))
     if ctx.has_concrete():
@@ -665,11 +668,12 @@ def correspondence_seq(ctx, dist, descs):
         if fail is not None:
             report(ctx, signature("seq", fail[0]), fail[1], dict(json_desc("seq", desc, highs), trace=trace, **fail[2]))
             continue
-        model = ctx.coq_eval(HEADER, "match " + terms[idx] + " with (st, ops, V, L, highs, _) => match sinst_of st ops V L with "
+        model = ctx.coq_eval(HEADER, "match " + terms[idx] + " with (st, ops, V, L, highs, _, _) => match sinst_of st ops V L with "
                              "Ok J => map observe_s9 (mf_seq_iter st J highs) | Err e => [Err e] end end")
         ctx.violation("correspondence/seq/invocation" + "+".join(str(t) for t in tags),
                       f"model mf_seq and SequenceBasedRoutingProblem.make_feasible disagree (tags {tags}: k = observation after "
-                      "invocation k, 9 = number of invocations); the property oracle found no failing input on this instance",
+                      "invocation k, 9 = number of invocations, 8 = harness and model disagree on the hypotheses of C09_total_seq); the property "
+                      "oracle found no failing input on this instance",
                       dict(json_desc("seq", desc, highs), correspondence="Heur.check_scase9",
                            implementation_outcomes=outs, model=model[-3000:]), False)
 
@@ -698,9 +702,36 @@ def arc_case(desc, highs):
     return term, outs
 
 
+def arc_friendly(rng):
+    """Instances on which the arc heuristic mostly succeeds: wide windows, a dense grid, most customers with
+    entry and exit arcs (the others get dummy routes), depot window open."""
+    ncust = rng.randint(1, 4)
+    nodes = [("D", 0, 0, INF)]
+    for k in range(1, ncust + 1):
+        lo = rng.randint(0, 3)
+        nodes.append((f"c{k}", 1, lo, lo + rng.randint(2, 5)))
+    names = [x[0] for x in nodes]
+    arcs = []
+    for c in names[1:]:
+        r = rng.random()
+        if r < 0.7:
+            arcs.append(("D", c, rng.randint(0, 2), rng.randint(0, 5)))
+        arcs.append((c, "D", rng.randint(0, 2), rng.randint(0, 5)))
+    for a in names[1:]:
+        for b2 in names[1:]:
+            if a != b2 and rng.random() < 0.4:
+                arcs.append((a, b2, rng.randint(0, 2), rng.randint(0, 5)))
+    rng.shuffle(arcs)
+    pts = list(range(0, 10)) if rng.random() < 0.6 else rng.sample(range(0, 10), rng.randint(4, 8)) + [0]
+    pts = list(dict.fromkeys(pts))
+    rng.shuffle(pts)
+    return base_desc(rng, nodes, arcs, time_points=pts, V=rng.choice([0, 1, 2]), L=rng.choice([3, 4, 5]))
+
+
 def correspondence_arc(ctx, dist, descs):
     rng = ctx.rng
     terms, meta = [], []
+    descs = list(descs) + [arc_friendly(rng) for _ in range(max(20, len(descs) // 2))]
     for desc in descs:
         highs = [rng.choice(HIGHS), rng.choice(HIGHS)]
         term, outs = arc_case(desc, highs)
@@ -729,7 +760,7 @@ def correspondence_arc(ctx, dist, descs):
 
 # ----------------------------------------------------------------------------------------------------------
 def run(ctx):
-    ctx.prove()
+    ctx.prove(props=["C09", "C09_arc"])
     dist = collections.Counter()
     reported = set()
     sweep_instances(ctx, dist, reported)
@@ -751,6 +782,7 @@ def run(ctx):
                            "value is compared on the same instances with costs rounded to integers")
     if ctx.tier == "thorough":
         ctx.coqchk("VQP.C09")
+        ctx.coqchk("VQP.C09_arc")
 
 
 def replay(ctx, data):
